@@ -74,6 +74,21 @@ def _petl_special(fa, name, e, args, kw, env):
                 'petl.util.base:RecordsView', 'petl.util.base:DictsView',
                 'petl.util.base:NamedTuplesView'):
         return V(('DATA', src_of(args[0]) if args else '?'))
+    if name in ('petl.transform.sorts:sort', 'petl.transform.sorts:SortView',
+                'petl.transform.sorts:mergesort', 'petl.transform.sorts:MergeSortView'):
+        k = None
+        if len(e.args) > 1 and name.endswith(('sort', 'SortView')) and 'merge' not in name.lower():
+            k = _keytext(e.args[1])
+        for kwd in e.keywords:
+            if kwd.arg == 'key':
+                k = _keytext(kwd.value)
+        src = '?'
+        for a in args:
+            s0 = src_of(a)
+            if s0 != '?':
+                src = s0
+                break
+        return V(('TABLE', src), ('SORTED', k))
     if name == 'petl.util.vis:_vis_overflow':
         # (bounded list of rows, overflow flag) when a limit is set -- decided
         # separately on _vis_overflow itself by C02 R2.3; the whole table when
